@@ -151,4 +151,15 @@ def fname(i, k, n):
     return FNAMES[(i + k) % n] if n else FNAMES[i]
 
 
+def ignore_run_shapes(P, Q=None):
+    """runs of two and three adjacent ignored fields before / between compared ones, in every shape kind (positional bookkeeping that
+    counts `an ignored field was seen` instead of how many)"""
+    Q = Q or P
+    return [('enum', [('tuple', ['i', 'i', P]), ('unit', [])]),
+            ('enum', [('named', ['i', 'i', P]), ('tuple', [P, 'i', 'i', Q])]),
+            ('struct', [('tuple', [P, 'i', 'i', Q])]),
+            ('struct', [('named', ['i', 'i', 'i', P])]),
+            ('enum', [('tuple', ['i', 'i', 'i', Q, P])])]
+
+
 WIDE = 13    # positions >= 10 sort before 2 as strings
